@@ -32,6 +32,12 @@ type EOp struct {
 	Data   []byte // ins: serialised file; pe: new PE32 body
 	RO     string // ro: visitor name
 
+	// Re: Target is a regular expression (rm, pe, ro only); Match = the texts (file GUID texts, UI
+	// names) of the image that it matches IN FULL, computed by the generator with Go's regexp
+	// on `(?i)^(?:r)$`, independently of fiano's predicate builders. The model gets Match.
+	Re    bool
+	Match []string
+
 	Spec *uefigen.File // ins: the generator's spec of Data (not part of the token)
 	Bad  bool          // ins: Data was cut so that NewFile rejects it (generator side only)
 }
@@ -45,17 +51,49 @@ func (o EOp) Token() string {
 		if o.Pad {
 			p = "1"
 		}
+		if o.Re {
+			return "rmx:" + p + ":" + H([]byte(o.Target)) + ":" + setField(o.Match)
+		}
 		return "rm:" + p + ":" + H([]byte(o.Target))
 	case "pe":
+		if o.Re {
+			return "pex:" + H([]byte(o.Target)) + ":" + setField(o.Match) + ":" + H(o.Data)
+		}
 		return "pe:" + H([]byte(o.Target)) + ":" + H(o.Data)
 	default:
 		return "ro:" + o.RO + ":" + H([]byte(o.Target))
 	}
 }
 
+func setField(m []string) string {
+	if len(m) == 0 {
+		return "-"
+	}
+	var hs []string
+	for _, x := range m {
+		hs = append(hs, H([]byte(x)))
+	}
+	return strings.Join(hs, ",")
+}
+
+func unSetField(f string) []string {
+	if f == "-" || f == "" {
+		return nil
+	}
+	var out []string
+	for _, h := range strings.Split(f, ",") {
+		out = append(out, string(UnH(h)))
+	}
+	return out
+}
+
 func ParseToken(t string) (EOp, bool) {
 	f := strings.Split(t, ":")
 	switch {
+	case len(f) == 4 && f[0] == "rmx":
+		return EOp{Kind: "rm", Pad: f[1] == "1", Target: string(UnH(f[2])), Re: true, Match: unSetField(f[3])}, true
+	case len(f) == 4 && f[0] == "pex":
+		return EOp{Kind: "pe", Target: string(UnH(f[1])), Re: true, Match: unSetField(f[2]), Data: UnH(f[3])}, true
 	case len(f) == 4 && f[0] == "ins":
 		return EOp{Kind: "ins", It: f[1], Target: string(UnH(f[2])), Data: UnH(f[3])}, true
 	case len(f) == 3 && f[0] == "rm":
@@ -254,6 +292,66 @@ func OpFind(args []string) string {
 		}
 	}
 	return "ok " + sb.String()
+}
+
+func findFiles(img []byte, pattern string) (string, bool) {
+	uefiops.Reset()
+	root, err := uefi.Parse(img)
+	if err != nil {
+		return "err-parse", false
+	}
+	pred, err := visitors.FindFilePredicate(pattern)
+	if err != nil {
+		return "harness-error regexp", false
+	}
+	f := &visitors.Find{Predicate: pred}
+	if err := f.Run(root); err != nil {
+		return "err-find", false
+	}
+	var sb strings.Builder
+	for _, m := range f.Matches {
+		switch n := m.(type) {
+		case *uefi.File:
+			sb.WriteString("F:" + H(n.Header.GUID[:]) + ";")
+		case *uefi.FirmwareVolume:
+			sb.WriteString("V:" + H(n.FVName[:]) + ";")
+		default:
+			sb.WriteString("?;")
+		}
+	}
+	return sb.String(), true
+}
+
+// findx <img> <pattern> <set> -> Find.Matches of FindFilePredicate(pattern), in order; the model
+// selects by <set>, the texts the pattern matches in full
+func OpFindX(args []string) string {
+	s, ok := findFiles(UnH(args[0]), string(UnH(args[1])))
+	if !ok {
+		return s
+	}
+	return "ok " + s
+}
+
+// p_find_full <img> <pattern> <expected>: the files FindFilePredicate(pattern) selects are exactly
+// those whose GUID text or UI name the pattern matches in full (<expected> = their GUIDs in tree
+// order, computed on the generator's spec with an independent regexp evaluation)
+func PFindFull(args []string) string {
+	s, ok := findFiles(UnH(args[0]), string(UnH(args[1])))
+	if !ok {
+		return "FAIL " + s
+	}
+	got := strings.Split(strings.TrimSuffix(s, ";"), ";")
+	if s == "" {
+		got = nil
+	}
+	for i := range got {
+		got[i] += ";"
+	}
+	sortStrings(got)
+	if g := strings.Join(got, ""); g != string(UnH(args[2])) {
+		return "FAIL pattern-selects-other-than-full-matches want " + clip(string(UnH(args[2]))) + " got " + clip(g)
+	}
+	return "ok"
 }
 
 // valid <img> -> "ok 1" | "ok 0": the Go rendering of the independent reader, compared with the
@@ -476,7 +574,7 @@ func PGuid(args []string) string {
 func RegisterAll() {
 	uefiops.RegisterAll()
 	for k, v := range map[string]Op{
-		"edit": OpEdit, "editvalid": OpEditValid, "find": OpFind, "valid": OpValid, "guidstr": OpGuidStr, "guidparse": OpGuidParse,
+		"edit": OpEdit, "editvalid": OpEditValid, "find": OpFind, "findx": OpFindX, "p_find_full": PFindFull, "valid": OpValid, "guidstr": OpGuidStr, "guidparse": OpGuidParse,
 		"p_c02": PC02, "p_c03": PC03, "p_c03_ro": PC03RO, "p_guid": PGuid,
 	} {
 		Register(k, v)
